@@ -106,6 +106,29 @@ check("C10", "model_checking",
       "Trusted: TLC, Json reader, harness recorder (negative control each run). Wrong-length key bytes are C08's observations.",
       "TLA+ spec (TextFormat, HeaderTable, Ideal) + TLC exhaustive MC + TLC observation-set and trace validation", "§4 C10")
 
+check("C04", "exploration",
+      "Input classes are enumerated from the specification's grammar (every parser x header class x base64 class x every decoded length x "
+      "content class, plus mutated valid values); every parser and every follow-up operation on accepted values runs under catch_unwind in "
+      "one child process per backend; TLC validates that every step is Ok or Err (panic / death of the process is not a result the "
+      "specification has) and, for short inputs, that the parse outcome is the grammar's.",
+      "Observes panics, aborts and fatal signals only: silent invalid memory accesses are NOT observable with this technique (no sanitizer). "
+      "PBKW costs beyond the stated budget are parsed but not executed.",
+      "TLA+ grammar (TextFormat) guided enumeration + execution under catch_unwind + TLC observation-set validation", "§4 C04")
+check("C16", "fault_enumeration",
+      "L0 (Ideal.tla) admits Emit only when every draw and encoder succeeded, requires every embedded random field to be new (`used`), and "
+      "Rng.tla fixes where the drawn value must appear; MC checks fail-closed on the model; every draw index of every operation of the "
+      "getrandom-based backends is failed (cleanly and after a partial fill) through a custom getrandom backend, and hundreds to thousands of "
+      "consecutive operations with identical inputs are validated for freshness, all as TLC-validated traces.",
+      "aws-lc's and libsodium's RNGs cannot be failed from outside the process: for those two backends only freshness is checked. RSA paths of "
+      "paseto-v1 draw through getrandom 0.2 (OsRng) and are not failed here.",
+      "TLA+ L0 spec (Ideal, Rng) + TLC MC + fault injection via custom getrandom backend + TLC trace validation", "§4 C16")
+check("C17", "exploration",
+      "Shared.tla (immutable key, overlapping operations, clone/give/drop of handles) is model-checked for all interleavings of 3 threads; "
+      "TLC-generated failure/success histories are replayed on one key per backend and 8-16 real threads share one key per backend; every "
+      "result is validated by TLC against the sequential function (same call on a fresh copy) or its postcondition.",
+      "A data race that neither crashes nor changes a result is invisible here (no ThreadSanitizer); schedules are those the OS produced.",
+      "TLA+ spec (Shared) + TLC MC of interleavings + TLC-generated histories replayed + TLC observation-set validation of real threads", "§4 C17")
+
 
 def na(pid, reason):
     NOT_APPLICABLE[pid] = reason
